@@ -168,17 +168,49 @@ def in_class_f1(data):
 # --------------------------------------------------------------------------
 # implementation-only runners
 
-def feed_inspector(fmt, data, sizes):
-    """Feed one real inspector the way the wrapper does (not fed again after it raised), finish."""
+FEED_KINDS = ('bytes', 'bytearray', 'memoryview')
+
+
+def clean_header(fmt):
+    """the first bytes of a clean image of the format (what a reused read buffer may hold afterwards)"""
+    kw = {'body_len': 16} if fmt == 'luks' else ({'tail': 8} if fmt == 'vhdx' else {})
+    return images.clean(fmt, **kw)[0]
+
+
+def feed_inspector(fmt, data, sizes, feed='bytes', refill=None):
+    """Feed one real inspector the way the wrapper does (not fed again after it raised), finish.
+    `feed`: how a chunk is presented - immutable bytes, or a view of ONE reused buffer (the
+    `n = f.readinto(buf); eat_chunk(buf[:n])` idiom: bytearray slice copy / memoryview slice).  After the last
+    chunk the buffer is overwritten with `refill` (default 0xEE): what the inspector concludes is a function
+    of the bytes it was shown, not of what the caller does with its buffer afterwards."""
     F = fi()
     i = F.ALL_FORMATS[fmt]()
     raised = None
-    for chunk in insp_impl.cut(data, sizes):
+    chunks = insp_impl.cut(data, sizes)
+    buf = bytearray(max([len(c) for c in chunks] + [1])) if feed != 'bytes' else None
+    for chunk in chunks:
+        if feed == 'bytes':
+            arg = chunk
+        else:
+            n = len(chunk)
+            buf[:n] = chunk
+            if feed == 'memoryview':
+                arg = memoryview(buf)[:n]
+            else:                                   # a bytearray the caller keeps and clobbers afterwards
+                arg = bytearray(n)
+                arg[:] = chunk
         try:
-            i.eat_chunk(chunk)
+            i.eat_chunk(arg)
         except Exception as e:
             raised = type(e).__name__
             break
+        finally:
+            if feed == 'bytearray':
+                arg[:] = (refill or b'')[:len(arg)].ljust(len(arg), b'\xee')
+    if buf is not None:
+        fill = (refill or b'')[:len(buf)]
+        buf[:len(fill)] = fill
+        buf[len(fill):] = b'\xee' * (len(buf) - len(fill))
     i.finish()
     return i, raised
 
@@ -197,6 +229,52 @@ def safety_outcome(i):
     return 'ok' if r is None else 'returned:%r' % (r,)
 
 
+NAME_KINDS = ('str', 'enum', 'substr', 'weird')
+_NAMES = {}
+
+
+class _SubStr(str):
+    pass
+
+
+class _WeirdStr(str):
+    """still equal to and hashing like the plain name; only its renderings differ"""
+
+    def __str__(self):
+        return 'DiskFormat<%s>' % str.__str__(self).upper()
+
+    def __repr__(self):
+        return '<weird name>'
+
+    def __format__(self, spec):
+        return 'formatted-name'
+
+
+def as_name(kind, name):
+    """the format name as an unusual but legal str: a (str, Enum) member, a plain str subclass, a subclass
+    whose __str__ / __repr__ / __format__ are overridden.  All compare equal to (and hash like) the plain
+    name, so the wrapper must treat them exactly like it."""
+    if name is None or kind == 'str':
+        return name
+    key = (kind, name)
+    if key not in _NAMES:
+        if kind == 'enum':
+            import enum
+            _NAMES[key] = enum.Enum('DiskFormat', {name.upper() or 'EMPTY': name}, type=str)[name.upper() or 'EMPTY']
+        elif kind == 'substr':
+            _NAMES[key] = _SubStr(name)
+        else:
+            _NAMES[key] = _WeirdStr(name)
+    return _NAMES[key]
+
+
+def as_names(kind, names):
+    if not names:
+        return names
+    seq = [as_name(kind, n) for n in names]
+    return seq if kind != 'weird' else tuple(seq)       # any container supporting `in`
+
+
 def show_dec(f):
     """render a property access as None / value / ('EXC', type)"""
     try:
@@ -205,15 +283,17 @@ def show_dec(f):
         return ('EXC', type(e).__name__)
 
 
-def wrap_trace(allowed, data, sizes):
+def wrap_trace(allowed, data, sizes, expected=None, name_kind='str'):
     """Read `data` through a real InspectWrapper; the decision after every read and after close.
     A decision is (format, formats): format is None | name | 'EXC:<type>'; formats is None |
-    sorted name tuple | 'EXC:<type>'."""
+    sorted name tuple | 'EXC:<type>'.  Every decision is read twice in mid-stream and three times after close;
+    `unstable` lists the points where the repeated reads did not agree."""
     F = fi()
-    w = F.InspectWrapper(io.BytesIO(data), allowed_formats=allowed or None)
+    w = F.InspectWrapper(io.BytesIO(data), expected_format=as_name(name_kind, expected),
+                         allowed_formats=as_names(name_kind, allowed) or None)
     order = list(F.ALL_FORMATS)
 
-    def decision():
+    def once():
         try:
             f = w.format
             f = None if f is None else str(f)
@@ -225,21 +305,28 @@ def wrap_trace(allowed, data, sizes):
         except Exception as e:
             l = 'EXC:' + type(e).__name__
         return f, l
+    unstable = []
+
+    def decision(where):
+        ds = [once(), once()] + ([once()] if where == 'after close' else [])     # twice in mid-stream, three times at the end
+        if any(d != ds[0] for d in ds[1:]):
+            unstable.append((where, ds))
+        return ds[0]
     decs = []
     escaped = None
-    for n in sizes:
+    for k, n in enumerate(sizes):
         try:
             w.read(n)
-        except Exception as e:           # no expected format: nothing may propagate
+        except Exception as e:           # legitimate only as the expected inspector's cut-off (C06)
             escaped = type(e).__name__
             break
-        decs.append(decision())
+        decs.append(decision('after read %d' % k))
     close_escaped = None
     try:
         w.close()
     except Exception as e:               # close() has no reason to raise at all
         close_escaped = type(e).__name__
-    final = decision()
+    final = decision('after close')
     matches = {}
     for i in whitebox.w_inspectors(w):
         try:
@@ -247,7 +334,37 @@ def wrap_trace(allowed, data, sizes):
         except Exception as e:
             matches[i.NAME] = 'EXC:' + type(e).__name__
     return {'decisions': decs, 'final': final, 'escaped': escaped, 'close_escaped': close_escaped, 'matches': matches,
-            'names': sorted(i.NAME for i in whitebox.w_inspectors(w))}
+            'unstable': unstable, 'names': sorted(i.NAME for i in whitebox.w_inspectors(w))}
+
+
+def run_wrap_b(allowed, expected, data, sizes, name_kind='str'):
+    """insp_impl.run_wrap's rendering (the driver's `wrap` reply), with every decision read three times
+    (rendered UNSTABLE(...) if the reads disagree) and names optionally passed as str subclasses"""
+    F = fi()
+    w = F.InspectWrapper(insp_impl.Src(data), expected_format=as_name(name_kind, expected),
+                         allowed_formats=as_names(name_kind, allowed) or None)
+
+    def show(n=2):
+        ds = [insp_impl.show_fmt(w) for _ in range(n)]
+        return ds[0] if all(d == ds[0] for d in ds) else 'UNSTABLE(%s)' % '~'.join(ds)
+    decisions = []
+    end = 'done'
+    for n in sizes:
+        try:
+            w.read(n)
+        except F.ImageFormatError as e:
+            end = 'mismatch' if 'does not match expected format' in str(e) else 'raised:ImageFormatError'
+            break
+        except Exception as e:
+            end = 'raised:' + insp_impl.errname(e)
+            break
+        decisions.append(show())
+    w.close()
+    order = list(F.ALL_FORMATS)
+    insps = sorted(whitebox.w_inspectors(w), key=lambda i: order.index(i.NAME))
+    errd = whitebox.w_errored(w)
+    per = ';'.join('%s%s %s' % (i.NAME, '!' if i in errd else '', insp_impl.show_verdict(i, None)) for i in insps)
+    return '|'.join(decisions) + '\t' + end + '\t' + show(3) + '\t' + per
 
 
 class CountingSource(io.BytesIO):
@@ -363,7 +480,7 @@ def model_faults(faults, expected):
     return sorted(set(out))
 
 
-def pipe_trace(allowed, expected, data, sizes, faults, iterator=False, via_iter_protocol=False):
+def pipe_trace(allowed, expected, data, sizes, faults, iterator=False, via_iter_protocol=False, name_kind='str'):
     """Stream through a real InspectWrapper with faults injected into the inspectors (see norm_fault).
     Everything the C06 oracle needs is recorded here, on the implementation only."""
     F = fi()
@@ -378,7 +495,8 @@ def pipe_trace(allowed, expected, data, sizes, faults, iterator=False, via_iter_
         src = gen()
     else:
         src = CountingSource(data)
-    w = F.InspectWrapper(src, expected_format=expected, allowed_formats=allowed or None)
+    w = F.InspectWrapper(src, expected_format=as_name(name_kind, expected),
+                         allowed_formats=as_names(name_kind, allowed) or None)
     cur = [0]
     fed_after_finish = []
     prop_reads = []       # (name, property, chunk index, raised?) - reads of a fault-carrying property
